@@ -70,6 +70,20 @@ func c08Apply(e *Exec, seedV Value, bs []*Term) Value {
 	if seed == nil {
 		e.unsupported("hash/maphash: seed is not a struct of one scalar")
 	}
+	// Store-level entries (Harness_C08_Store*): the filter layers have the constructor's size there (64/128
+	// words), where symbolic probe positions are intractable, so the hash is instantiated with two concrete
+	// extremes instead of being uninterpreted: an ordinary hash (FNV-1a over seed and bytes: distinct keys
+	// practically never collide, the filter answers "absent" for fresh keys) and, for entries named
+	// *Collide, a constant hash (every key probes the same bits: after the first add the filter answers
+	// "possibly present" for EVERY key, so every validation takes the durable point-read path).
+	if strings.Contains(e.entryName, "Harness_C08_Store") && seed.IsConst() {
+		if strings.Contains(e.entryName, "Collide") {
+			return e.ts.BV(64, 0x5bd1e9955bd1e995)
+		}
+		if h, ok := c07ConcreteHash(seed.Val, bs); ok {
+			return e.ts.BV(64, h)
+		}
+	}
 	s := c08State(e)
 	for _, a := range s.apps {
 		if a.seed != seed || len(a.args) != len(bs) {
